@@ -7,47 +7,210 @@
      model-evaluator/src/builders/item_definition*.rs type references followed recursively
      model-evaluator/src/model_evaluator.rs           check_cyclic_dependencies (depth-first search with an explicit stack; added by the fix 285ae4c)
 
-   Outcomes: Ok | Err | Crash site | Diverge (a recursion that does not end: in the process, a stack overflow and abort).
-   `xxx_orig` is the behaviour of the pinned commit f2b7a1b.  No proofs in this file. *)
+   Outcomes: Ok | Err | Panic site | Diverge (a recursion that does not end: in the process, a stack overflow and abort).
+   `xxx_orig` is the behaviour of the pinned commit f2b7a1b (`table_eval_orig2`: the code before d6b0858 (the repair of the aggregators)).
+   No proofs in this file. *)
 From Coq Require Import List Arith Bool PeanoNat.
 Import ListNotations.
 
-Inductive outcome := Ok | Err | Crash (site : nat) | Diverge.
+Inductive outcome := Ok | Err | Panic (site : nat) | Diverge.
 
-(* sites *)
-Definition site_input_entry := 297.
-Definition site_output_entry := 314.
-Definition site_output_value0 := 119.
+(* ------------------------------------------------------------------ decision tables (builders/decision_table.rs)
+   An abstract table: hit policy; number of input clauses; per output clause: has it a name (component_names holds the names of the
+   clauses that HAVE one), its evaluated output values (empty when the clause gives none), its evaluated default output entry; per rule:
+   the number of input entries and the evaluated output entry values.  A value is a natural number (the generated tables write number
+   literals); null is a separate result.  Which rules match is an argument of the evaluation (it depends on the input context).
+   Every place where the Rust code indexes a vector (v[i], v[0]) is an explicit bounds test here with its own Panic arm; the line numbers
+   are those of the file after d6b0858.  Texts that do not parse as FEEL (an Err at build) are outside the abstraction. *)
+Inductive aggregator := AList | ACount | ASum | AMin | AMax.
+Inductive hit_policy := Unique | Any | Priority | First | RuleOrder | OutputOrder | Collect (a : aggregator).
+Record oclause := mk_out { has_name : bool; ovalues : list nat; odefault : option nat }.
+Record rule := mk_rule { in_entries : nat; outv : list nat }.
+Record table := mk_table { policy : hit_policy; in_clauses : nat; outs : list oclause; rules : list rule }.
+Definition out_entries (r : rule) : nat := length (outv r).
+Definition out_clauses (t : table) : nat := length (outs t).
+Definition names (t : table) : nat := length (filter has_name (outs t)).        (* component_names.len() *)
 
-(* ------------------------------------------------------------------ decision tables: only the counts matter *)
-Record rule := mk_rule { in_entries : nat; out_entries : nat }.
-Record table := mk_table { in_clauses : nat; out_clauses : nat; rules : list rule }.
+(* index sites *)
+Definition site_input_entry := 320.        (* rule.input_entries[i] *)
+Definition site_output_entry := 334.       (* rule.output_entries[i] *)
+Definition site_component_name := 118.     (* self.component_names[i] in get_result *)
+Definition site_default0 := 146.           (* self.default_output_values[0] *)
+Definition site_matching0 := 166.          (* matching_rules[0] (lines 166, 174, 189, 197) *)
+Definition site_output_value0 := 119.      (* evaluated_rule.output_entry_values[0] in get_result of the pinned commit *)
+Definition site_aggregate_value0 := 238.   (* evaluated_rule.output_entry_values[0] in collect_sum / _min / _max before the repair (lines 238, 253, 268) *)
 
-(* pinned commit: `for i in 0..in_clauses { rule.input_entries[i] }` then the same for the output clauses, rule by rule *)
+(* `for i in 0..n { v[i] }` on a vector of `len` elements: every index is tested *)
+Definition all_in_bounds (n len : nat) : bool := forallb (fun i => i <? len) (seq 0 n).
+
+(* ---- build: parse_decision_table, the loop over the rules.
+   pinned commit: `for (i, _) in input clauses { rule.input_entries[i] }` then the same for the output clauses, rule by rule *)
 Fixpoint table_build_rules_orig (ic oc : nat) (rs : list rule) : outcome :=
   match rs with
   | [] => Ok
   | r :: rest =>
-    if in_entries r <? ic then Crash site_input_entry
-    else if out_entries r <? oc then Crash site_output_entry
+    if negb (all_in_bounds ic (in_entries r)) then Panic site_input_entry
+    else if negb (all_in_bounds oc (out_entries r)) then Panic site_output_entry
     else table_build_rules_orig ic oc rest
   end.
 Definition table_build_orig (t : table) : outcome := table_build_rules_orig (in_clauses t) (out_clauses t) (rules t).
 
-(* now: the numbers are compared first *)
+(* now (012211c): the numbers are compared first, then the same two loops *)
 Fixpoint table_build_rules (ic oc : nat) (rs : list rule) : outcome :=
   match rs with
   | [] => Ok
   | r :: rest =>
     if negb (in_entries r =? ic) then Err
     else if negb (out_entries r =? oc) then Err
+    else if negb (all_in_bounds ic (in_entries r)) then Panic site_input_entry
+    else if negb (all_in_bounds oc (out_entries r)) then Panic site_output_entry
     else table_build_rules ic oc rest
   end.
 Definition table_build (t : table) : outcome := table_build_rules (in_clauses t) (out_clauses t) (rules t).
 
-(* evaluation of a matching rule: get_result looks at output_entry_values (one per output clause) *)
-Definition table_eval_orig (t : table) : outcome := if 1 <? out_clauses t then Ok else if out_clauses t =? 0 then Crash site_output_value0 else Ok.
-Definition table_eval (t : table) : outcome := Ok.
+(* ---- evaluation: the closure returned by build_decision_table_evaluator *)
+Inductive result := RNull | RNum (v : nat) | RCtx (entries : list (option nat)).      (* what one rule gives; a context entry None is null *)
+Inductive value := One (r : result) | Many (rs : list result).
+Inductive res (A : Type) := Got (a : A) | EvalPanic (site : nat).
+Arguments Got {A} a.
+Arguments EvalPanic {A} site.
+Definition bind {A B : Type} (x : res A) (k : A -> res B) : res B := match x with Got a => k a | EvalPanic s => EvalPanic s end.
+
+Definition opt_eqb (a b : option nat) : bool :=
+  match a, b with Some x, Some y => x =? y | None, None => true | _, _ => false end.
+Fixpoint entries_eqb (xs ys : list (option nat)) : bool :=
+  match xs, ys with [], [] => true | x :: xs', y :: ys' => opt_eqb x y && entries_eqb xs' ys' | _, _ => false end.
+Definition result_eqb (a b : result) : bool :=
+  match a, b with
+  | RNull, RNull => true
+  | RNum x, RNum y => x =? y
+  | RCtx xs, RCtx ys => entries_eqb xs ys
+  | _, _ => false
+  end.
+
+(* get_matching_rules: evaluated rules with their `matches` flag, in rule order (a rule without a flag does not match) *)
+Fixpoint matching_rules (rs : list rule) (m : list bool) : list rule :=
+  match rs, m with
+  | r :: rs', b :: m' => if b then r :: matching_rules rs' m' else matching_rules rs' m'
+  | _, _ => []
+  end.
+
+(* get_matching_rules_prioritized: stable sort_by; clause by clause (zip of both rules' values and the clauses' output values) the position
+   of the value in the clause's output values decides, a value that is listed comes before one that is not *)
+Fixpoint position (l : list nat) (v : nat) : option nat :=
+  match l with [] => None | x :: r => if x =? v then Some 0 else match position r v with Some i => Some (S i) | None => None end end.
+Fixpoint prio_cmp (xs ys : list nat) (ovs : list (list nat)) : comparison :=
+  match xs, ys, ovs with
+  | x :: xs', y :: ys', ov :: ovs' =>
+    match position ov x, position ov y with
+    | Some i, Some j => if i <? j then Lt else if j <? i then Gt else prio_cmp xs' ys' ovs'
+    | Some _, None => Lt
+    | None, Some _ => Gt
+    | None, None => prio_cmp xs' ys' ovs'
+    end
+  | _, _, _ => Eq
+  end.
+Fixpoint insert_rule (ovs : list (list nat)) (x : rule) (l : list rule) : list rule :=
+  match l with
+  | [] => [x]
+  | y :: l' => match prio_cmp (outv y) (outv x) ovs with Lt => y :: insert_rule ovs x l' | _ => x :: l end
+  end.
+Definition prioritized (ovs : list (list nat)) (l : list rule) : list rule := fold_right (insert_rule ovs) [] l.
+
+(* v[0] *)
+Definition at0 {A B : Type} (l : list A) (site : nat) (k : A -> res B) : res B := match l with x :: _ => k x | [] => EvalPanic site end.
+Definition is_empty {A : Type} (l : list A) : bool := match l with [] => true | _ => false end.
+
+(* get_result.  Pinned commit: the last arm is output_entry_values[0] *)
+Definition get_result_orig (n_names : nat) (r : rule) : res result :=
+  let vs := outv r in
+  if 1 <? length vs then
+    if negb (length vs =? n_names) then Got RNull
+    else if all_in_bounds (length vs) n_names then Got (RCtx (map Some vs)) else EvalPanic site_component_name
+  else at0 vs site_output_value0 (fun v => Got (RNum v)).
+(* now (012211c): `else if let Some(value) = output_entry_values.first() { value } else { null }` *)
+Definition get_result (n_names : nat) (r : rule) : res result :=
+  let vs := outv r in
+  if 1 <? length vs then
+    if negb (length vs =? n_names) then Got RNull
+    else if all_in_bounds (length vs) n_names then Got (RCtx (map Some vs)) else EvalPanic site_component_name
+  else match vs with v :: _ => Got (RNum v) | [] => Got RNull end.
+
+Fixpoint map_res {A B : Type} (f : A -> res B) (l : list A) : res (list B) :=
+  match l with
+  | [] => Got []
+  | x :: r => bind (f x) (fun y => bind (map_res f r) (fun ys => Got (y :: ys)))
+  end.
+
+(* evaluate_default_output_value *)
+Definition is_none {A : Type} (o : option A) : bool := match o with None => true | Some _ => false end.
+Definition default_value (t : table) : res value :=
+  let ds := map odefault (outs t) in
+  if forallb is_none ds then Got (One RNull)
+  else if length ds =? 1 then at0 ds site_default0 (fun d => Got (One (match d with Some v => RNum v | None => RNull end)))
+  else if negb (length ds =? names t) then Got (One RNull)
+  else Got (One (RCtx ds)).
+
+(* the first output entry value of every matching rule.  Before d6b0858: output_entry_values[0] for every rule *)
+Definition first_values_orig (l : list rule) : res (option (list nat)) :=
+  bind (map_res (fun r => at0 (outv r) site_aggregate_value0 (fun v => Got v)) l) (fun vs => Got (Some vs)).
+(* now: `.first().cloned()` collected into an Option: None when some rule has no output entry *)
+Fixpoint first_values_opt (l : list rule) : option (list nat) :=
+  match l with
+  | [] => Some []
+  | r :: rest => match outv r, first_values_opt rest with v :: _, Some vs => Some (v :: vs) | _, _ => None end
+  end.
+Definition first_values (l : list rule) : res (option (list nat)) := Got (first_values_opt l).
+
+Definition aggregate (a : aggregator) (vs : list nat) : result :=
+  match a, vs with
+  | ASum, _ => RNum (fold_right Nat.add 0 vs)
+  | AMin, v :: r => RNum (fold_right Nat.min v r)
+  | AMax, v :: r => RNum (fold_right Nat.max v r)
+  | _, _ => RNull
+  end.
+
+Section eval.
+  Variable gr : nat -> rule -> res result.                          (* get_result *)
+  Variable fv : list rule -> res (option (list nat)).             (* the first output values, for the aggregators *)
+
+  (* hit policy ANY: `for rule in matching { if get_result(rule) != first_result { return null } } first_result` *)
+  Fixpoint any_loop (n : nat) (first : result) (l : list rule) : res result :=
+    match l with
+    | [] => Got first
+    | r :: rest => bind (gr n r) (fun x => if result_eqb x first then any_loop n first rest else Got RNull)
+    end.
+
+  Definition table_eval_with (t : table) (m : list bool) : res value :=
+    let n := names t in
+    let matching := matching_rules (rules t) m in
+    let sorted := prioritized (map ovalues (outs t)) matching in
+    let one (l : list rule) := if is_empty l then default_value t else at0 l site_matching0 (fun r => bind (gr n r) (fun x => Got (One x))) in
+    let all (l : list rule) := if is_empty l then default_value t else bind (map_res (gr n) l) (fun xs => Got (Many xs)) in
+    match policy t with
+    | Unique => if is_empty matching then default_value t
+                else if 1 <? length matching then Got (One RNull)
+                else one matching
+    | Any => if is_empty matching then default_value t
+             else at0 matching site_matching0 (fun r => bind (gr n r) (fun first => bind (any_loop n first matching) (fun x => Got (One x))))
+    | Priority => one sorted
+    | First => one matching
+    | RuleOrder => all matching
+    | OutputOrder => all sorted
+    | Collect AList => all matching
+    | Collect ACount => if is_empty matching then default_value t else Got (One (RNum (length matching)))
+    | Collect a => if 1 <? n then Got (One RNull)
+                   else if is_empty matching then default_value t
+                   else bind (fv matching) (fun o => match o with Some vs => Got (One (aggregate a vs)) | None => Got (One RNull) end)
+    end.
+End eval.
+
+(* the code now; the pinned commit f2b7a1b at these index sites; the code between 012211c and d6b0858 *)
+Definition table_eval : table -> list bool -> res value := table_eval_with get_result first_values.
+Definition table_eval_orig : table -> list bool -> res value := table_eval_with get_result_orig first_values_orig.
+Definition table_eval_orig2 : table -> list bool -> res value := table_eval_with get_result first_values_orig.
+Definition is_aggregate (p : hit_policy) : bool := match p with Collect ASum | Collect AMin | Collect AMax => true | _ => false end.
+Definition eval_outcome {A : Type} (x : res A) : outcome := match x with Got _ => Ok | EvalPanic s => Panic s end.
 
 (* ------------------------------------------------------------------ the dependency graph: node -> required nodes.
    Nodes are decisions, knowledge models, decision services and item definitions (all in one id space); a reference to an id that
@@ -135,8 +298,16 @@ Fixpoint first_not_ok (os : list outcome) : outcome :=
 (* pinned commit: no cycle check, recursion limited only by the stack *)
 Definition build_orig (fuel : nat) (d : definitions) : outcome :=
   first_not_ok (map table_build_orig (tables d) ++ map (follow fuel (deps d)) (map fst (deps d))).
-Definition evaluate_orig (fuel : nat) (d : definitions) (n : nat) : outcome :=
-  first_not_ok (follow fuel (deps d) n :: map table_eval_orig (tables d)).
+(* evaluation: `ms` gives for every table which of its rules match (it depends on the input context); a table without a pattern: no rule matches *)
+Fixpoint eval_tables (ev : table -> list bool -> res value) (ts : list table) (ms : list (list bool)) : list outcome :=
+  match ts with
+  | [] => []
+  | t :: ts' => eval_outcome (ev t (hd [] ms)) :: eval_tables ev ts' (tl ms)
+  end.
+Definition evaluate_with (ev : table -> list bool -> res value) (fuel : nat) (d : definitions) (ms : list (list bool)) (n : nat) : outcome :=
+  first_not_ok (follow fuel (deps d) n :: eval_tables ev (tables d) ms).
+Definition evaluate_orig := evaluate_with table_eval_orig.
+Definition evaluate_orig2 := evaluate_with table_eval_orig2.      (* between 012211c and d6b0858 *)
 
 Definition build (fuel : nat) (d : definitions) : outcome :=
   match has_cycle (deps d) with
@@ -144,8 +315,7 @@ Definition build (fuel : nat) (d : definitions) : outcome :=
   | DfsFuel => Diverge
   | NoCycle _ => first_not_ok (map table_build (tables d) ++ map (follow fuel (deps d)) (map fst (deps d)))
   end.
-Definition evaluate (fuel : nat) (d : definitions) (n : nat) : outcome :=
-  first_not_ok (follow fuel (deps d) n :: map table_eval (tables d)).
+Definition evaluate := evaluate_with table_eval.
 
 (* reachability in at least one step through nodes of the graph *)
 Inductive path (g : graph) : nat -> nat -> Prop :=
